@@ -345,6 +345,11 @@ impl Accept {
         let verif_token = conn.token;
 
         let next = self.next();
+
+        // Increment counter of WorkerHandle before the connection is handed over, so that the
+        // worker never sees (or finishes) a connection that has not been counted yet.
+        let available = next.inc_counter();
+
         match next.send(conn) {
             Ok(_) => {
                 #[cfg(actix_net_verif)]
@@ -353,9 +358,8 @@ impl Accept {
                     crate::verif::yield_point(crate::verif::YieldPoint::SentNotCounted { idx: next.idx() });
                 }
 
-                // Increment counter of WorkerHandle.
                 // Set worker to unavailable with it hit max (Return false).
-                if !next.inc_counter() {
+                if !available {
                     let idx = next.idx();
                     self.avail.set_available(idx, false);
                 }
